@@ -228,6 +228,18 @@ func (n *Node) Encode() string {
 	return sb.String()
 }
 
+// EncodeFlat encodes an observed page list as a flat document (one /Pages root without attributes,
+// every page with its effective attributes as own entries): it shows exactly these pages.
+func EncodeFlat(ps []VPage) string {
+	var sb strings.Builder
+	sb.WriteString("N - - - 0 " + hx(len(ps)))
+	for _, v := range ps {
+		rot := v.Rot
+		sb.WriteString(" " + strings.Join([]string{"P", hx(v.ID), hx(rot), rs(v.Media), rs(v.Crop), "1", rs(v.Trim), rs(v.Bleed), rs(v.Art)}, " "))
+	}
+	return sb.String()
+}
+
 // ---------------------------------------------------------------- generator
 
 type GenOpt struct {
@@ -354,9 +366,53 @@ func attrsPDF(a Attrs) string {
 // Marker content stream of page id.
 func markerContent(id int) string { return fmt.Sprintf("%d w\n", id) }
 
-// PDF serialises the tree as a minimal PDF 1.4 file.
-func PDF(root *Node) []byte {
-	var objs []string // objs[i] = body of object i+1
+// Numbering controls the object numbers of a written document (nil: dense 1..N, /Size N+1).
+type Numbering struct {
+	Map      func(i int) int // strictly increasing map from the logical number 1..N to the object number
+	ExtraEnd int             // /Size = highest number + 1 + ExtraEnd
+	ListFree bool            // list the holes as free entries (linked free list) instead of leaving them out of the xref table
+}
+
+// Sparse makes a numbering with holes: at the start, in the middle and/or at the end of the number
+// space, or with the highest number far above the object count.
+func Sparse(r *rand.Rand) *Numbering {
+	start, stride, gapAt, gap := 0, 1, -1, 0
+	switch r.Intn(5) {
+	case 0:
+		start = 1 + r.Intn(9)
+	case 1:
+		gapAt, gap = 1+r.Intn(6), 1+r.Intn(12)
+	case 2:
+		stride = 2 + r.Intn(6)
+	case 3:
+		start, gapAt, gap = 1+r.Intn(4), 2+r.Intn(5), 1+r.Intn(30)
+	default:
+		start, stride, gapAt, gap = r.Intn(3), 1+r.Intn(3), 1+r.Intn(8), 100+r.Intn(400)
+	}
+	n := &Numbering{ListFree: r.Intn(3) == 0}
+	if r.Intn(3) == 0 {
+		n.ExtraEnd = 1 + r.Intn(40)
+	}
+	n.Map = func(i int) int {
+		v := start + i*stride
+		if gapAt >= 0 && i > gapAt {
+			v += gap
+		}
+		return v
+	}
+	return n
+}
+
+// PDF serialises the tree as a minimal PDF 1.4 file with dense object numbers.
+func PDF(root *Node) []byte { return PDFWith(root, nil) }
+
+// PDFWith serialises the tree with the given object numbering (xref table in subsections).
+func PDFWith(root *Node, nb *Numbering) []byte {
+	num := func(i int) int { return i }
+	if nb != nil && nb.Map != nil {
+		num = nb.Map
+	}
+	var objs []string // objs[i] = body of logical object i+1
 	alloc := func() int { objs = append(objs, ""); return len(objs) }
 	catalog := alloc()
 	var emit func(n *Node, parent int) int
@@ -364,13 +420,13 @@ func PDF(root *Node) []byte {
 		me := alloc()
 		par := ""
 		if parent > 0 {
-			par = fmt.Sprintf(" /Parent %d 0 R", parent)
+			par = fmt.Sprintf(" /Parent %d 0 R", num(parent))
 		}
 		if n.Leaf {
 			c := alloc()
 			content := markerContent(n.ID)
 			objs[c-1] = fmt.Sprintf("<< /Length %d >>\nstream\n%sendstream", len(content), content)
-			s := fmt.Sprintf("<< /Type /Page%s%s /Contents %d 0 R", par, attrsPDF(n.A), c)
+			s := fmt.Sprintf("<< /Type /Page%s%s /Contents %d 0 R", par, attrsPDF(n.A), num(c))
 			if n.Trim != nil {
 				s += " /TrimBox " + rectPDF(n.Trim)
 			}
@@ -385,26 +441,77 @@ func PDF(root *Node) []byte {
 		}
 		kids := make([]string, len(n.Kids))
 		for i, k := range n.Kids {
-			kids[i] = fmt.Sprintf("%d 0 R", emit(k, me))
+			kids[i] = fmt.Sprintf("%d 0 R", num(emit(k, me)))
 		}
 		objs[me-1] = fmt.Sprintf("<< /Type /Pages%s%s /Count %d /Kids [%s] >>", par, attrsPDF(n.A), n.Count(), strings.Join(kids, " "))
 		return me
 	}
 	pages := emit(root, 0)
-	objs[catalog-1] = fmt.Sprintf("<< /Type /Catalog /Pages %d 0 R >>", pages)
+	objs[catalog-1] = fmt.Sprintf("<< /Type /Catalog /Pages %d 0 R >>", num(pages))
 	var b bytes.Buffer
 	b.WriteString("%PDF-1.4\n%\xe2\xe3\xcf\xd3\n")
-	offs := make([]int, len(objs))
+	offs := map[int]int{}
+	highest := 0
 	for i, o := range objs {
-		offs[i] = b.Len()
-		fmt.Fprintf(&b, "%d 0 obj\n%s\nendobj\n", i+1, o)
+		k := num(i + 1)
+		offs[k] = b.Len()
+		if k > highest {
+			highest = k
+		}
+		fmt.Fprintf(&b, "%d 0 obj\n%s\nendobj\n", k, o)
 	}
+	size := highest + 1
+	if nb != nil {
+		size += nb.ExtraEnd
+	}
+	// xref entries: used objects; object 0; optionally the holes as a linked free list
+	type ent struct {
+		off, gen int
+		free     bool
+	}
+	ents := map[int]ent{}
+	for k, o := range offs {
+		ents[k] = ent{o, 0, false}
+	}
+	var free []int
+	if nb != nil && nb.ListFree {
+		for k := 1; k < size; k++ {
+			if _, ok := offs[k]; !ok {
+				free = append(free, k)
+			}
+		}
+	}
+	next := 0
+	for i := len(free) - 1; i >= 0; i-- {
+		ents[free[i]] = ent{next, 1, true}
+		next = free[i]
+	}
+	ents[0] = ent{next, 65535, true}
 	x := b.Len()
-	fmt.Fprintf(&b, "xref\n0 %d\n0000000000 65535 f \n", len(objs)+1)
-	for _, o := range offs {
-		fmt.Fprintf(&b, "%010d 00000 n \n", o)
+	b.WriteString("xref\n")
+	for k := 0; k < size; {
+		if _, ok := ents[k]; !ok {
+			k++
+			continue
+		}
+		j := k
+		for {
+			if _, ok := ents[j]; !ok {
+				break
+			}
+			j++
+		}
+		fmt.Fprintf(&b, "%d %d\n", k, j-k)
+		for ; k < j; k++ {
+			e := ents[k]
+			t := "n"
+			if e.free {
+				t = "f"
+			}
+			fmt.Fprintf(&b, "%010d %05d %s \n", e.off, e.gen, t)
+		}
 	}
-	fmt.Fprintf(&b, "trailer\n<< /Size %d /Root %d 0 R >>\nstartxref\n%d\n%%%%EOF\n", len(objs)+1, catalog, x)
+	fmt.Fprintf(&b, "trailer\n<< /Size %d /Root %d 0 R >>\nstartxref\n%d\n%%%%EOF\n", size, num(catalog), x)
 	return b.Bytes()
 }
 
